@@ -182,6 +182,8 @@ def make_args(api, cfg, L, held_args=None):
     if ("st", n) not in held_args:
         held_args[("st", n)] = St(list(strs))
         held_args[("qc", n)] = impl.circuit_from_gates(n, prog)
+        if held_args.get("ver", 0) == 1:
+            edit_args_inplace(held_args, n)
     st, qc = held_args[("st", n)], held_args[("qc", n)]
     if api in ("prep", "readout"):
         return [st, conn]
@@ -206,6 +208,19 @@ def make_args(api, cfg, L, held_args=None):
     if api == "lookup_stab":
         return [n, conn, 1]
     raise ValueError(api)
+
+
+def edit_args_inplace(held_args, n):
+    """The caller edits its own objects in place: a Hadamard on qubit 0 of the stabilizer (rows of R and S exchanged: still a valid stabilizer) and an
+    extra h gate at the end of its circuit.  Applied twice it restores the original value."""
+    st, qc = held_args[("st", n)], held_args[("qc", n)]
+    r0 = st.R[0, :].copy()
+    st.R[0, :] = st.S[0, :]
+    st.S[0, :] = r0
+    if len(qc.data) and qc.data[-1].operation.name == "sx":
+        qc.data.pop()
+    else:
+        qc.sx(0)
 
 
 def call_api(api, args, L):
@@ -287,7 +302,8 @@ def run_history(hist, L):
             except Exception as e:
                 r, res, exc = None, None, type(e).__name__ + ": " + str(e)[:100]
             held.append([r, res, False])
-            obs.append({"step": step, "result": res, "exc": exc, "args_unchanged": ser(args, L) == before, "cache": project_cache(L), "stale": stale()})
+            obs.append({"step": step, "result": res, "exc": exc, "args_unchanged": ser(args, L) == before, "cache": project_cache(L), "stale": stale(),
+                        "ver": held_args.get("ver", 0)})
         elif kind == "mutate":
             h = int(step[1])
             if 1 <= h <= len(held):
@@ -307,6 +323,11 @@ def run_history(hist, L):
             if held:
                 held.pop(0)
             obs.append({"step": step, "exc": "", "cache": project_cache(L)})
+        elif kind == "editarg":
+            held_args["ver"] = 1 - held_args.get("ver", 0)
+            for key in [k for k in held_args if isinstance(k, tuple) and k[0] == "st"]:
+                edit_args_inplace(held_args, key[1])
+            obs.append({"step": step, "exc": "", "cache": project_cache(L), "ver": held_args["ver"]})
     return obs
 
 
